@@ -72,11 +72,11 @@ pub fn judge_applied(region: &str, before: &VerifMac, after: &VerifMac, d: &refc
                     } else if f >= lo && f <= hi {
                         got == Some(f)
                     } else {
-                        // out of band: ignored (channel keeps its previous definition) or removed
-                        got == prev || got.is_none()
+                        // out of band: ignored, i.e. the slot keeps whatever it held before
+                        got == prev
                     };
                     if !ok {
-                        let k2 = if f == 0 { "zero-not-removed" } else if f >= lo && f <= hi { "valid-frequency-not-applied" } else { "invalid-frequency-applied" };
+                        let k2 = if f == 0 { "zero-not-removed" } else if f >= lo && f <= hi { "valid-frequency-not-applied" } else { "invalid-frequency-not-ignored" };
                         out.push(V { sig: format!("C11|cflist|{k2}"), what: format!("{region}: CFList entry {k} = {f} Hz, channel {} after join: {got:?}", nj + k) });
                     }
                 }
@@ -444,7 +444,8 @@ fn eval_sweep(c: &SweepCase) -> Vec<(String, String)> {
         s.step(&JEv::Join { outcome: 0, nonce: 7, spec: 0 });
     }
     if c.pre >= 2 {
-        s.step(&JEv::Join { outcome: 1, nonce: 9, spec: 2 });
+        // re-join from a joined state: with non-default settings (2) or with CFList channels in place (3)
+        s.step(&JEv::Join { outcome: 1, nonce: 9, spec: if c.pre == 3 { 1 } else { 2 } });
     }
     let f = Frame::JoinAccept {
         join_nonce: c.jn,
@@ -494,7 +495,7 @@ pub fn run(tier: Tier, replay: Option<&str>) {
         for front in ["nb", "async"] {
             let mut cases = vec![];
             for (i, sp) in specs.iter().enumerate() {
-                for pre in 0..3u8 {
+                for pre in 0..4u8 {
                     if front != "nb" && pre != 0 && i % 7 != 0 {
                         continue;
                     }
@@ -561,7 +562,7 @@ pub fn run(tier: Tier, replay: Option<&str>) {
         coverage,
         vec![
             "reference: refcodec (JoinRequest layout, JoinAccept decryption/MIC, 1.0.x key derivation) and refregion (validity of RX1 offset, RX2 rate, CFList)".into(),
-            "an RX2 data rate the region defines but the stack does not implement may be ignored; out-of-band CFList frequencies may be ignored or remove the channel".into(),
+            "an RX2 data rate the region defines but the stack does not implement may be ignored; an out-of-band CFList frequency must leave its slot as it was".into(),
             "LoRaWAN 1.0.x has no JoinNonce replay protection: a replayed accept whose MIC verifies joins with keys derived from the new DevNonce".into(),
         ],
         Some(&replayer),
